@@ -48,7 +48,8 @@ class World(object):
                 os.mkdir(os.path.join(root, G.stem(spec, mid)))
         for mid in spec['order']:
             if spec['modules'][mid]['present']:
-                self.write(mid, 0, 'f', bool(spec['modules'][mid].get('broken')))
+                b = spec['modules'][mid].get('broken') or False
+                self.write(mid, 0, 'f', 'syntax' if b is True else b)
 
     def path(self, mid):
         return os.path.join(self.root, G.relpath(self.spec, mid))
@@ -67,14 +68,19 @@ class World(object):
         os.utime(self.path(mid), (t, t))
 
     def write(self, mid, version, direction, broken=False):
-        with open(self.path(mid), 'w') as f:
-            f.write(G.render(self.spec, mid, version, broken))
+        """broken: False | 'syntax' (does not parse) | 'bytes' (not valid UTF-8)"""
+        if broken == 'bytes':
+            with open(self.path(mid), 'wb') as f:
+                f.write(G.garbled(version))
+        else:
+            with open(self.path(mid), 'w') as f:
+                f.write(G.render(self.spec, mid, version, bool(broken)))
         self.version[mid] = version
         self.broken[mid] = broken
         self.stamp(mid, direction)
 
     def text(self, mid):
-        return G.render(self.spec, mid, self.version[mid], self.broken.get(mid, False))
+        return G.render(self.spec, mid, self.version[mid], self.broken.get(mid) == 'syntax')
 
     def apply(self, op):
         """returns the effective operation kind ('create', 'rewrite-fwd', 'rewrite-back', 'touch-fwd',
@@ -93,12 +99,13 @@ class World(object):
             if not here:
                 return None
             self.write(mid, self.version[mid] + 1, direction)
-        elif kind == 'break':
-            # saved with a syntax error (created that way if it did not exist)
+        elif kind in ('break', 'garble'):
+            # saved with a syntax error / as undecodable bytes (created that way if it did not exist)
+            how = 'syntax' if kind == 'break' else 'bytes'
             if not here:
-                self.write(mid, 0, 'f', True)
-                return 'create-broken'
-            self.write(mid, self.version[mid] + 1, direction, True)
+                self.write(mid, 0, 'f', how)
+                return 'create-broken' if kind == 'break' else 'create-garbled'
+            self.write(mid, self.version[mid] + 1, direction, how)
         elif kind == 'touch':
             if not here:
                 return None
@@ -124,8 +131,66 @@ def _entry_key(e):
     return json.dumps(e, sort_keys=True)
 
 
-def ask(project, world, probe):
-    """['ok', canonical result] | ['exc', exception type name]"""
+class InjectedFault(Exception):
+    """raised by the harness inside supp while a request's fault flag is armed"""
+
+
+_fault = {'lookup': None, 'scope': None, 'hits': 0}
+
+
+def install_fault_hooks():
+    """Signature-transparent wrappers around Project.get_module and SourceModule.scope: while a request is
+    armed, the lookup (resp. the analysis) of ONE designated module name raises InjectedFault - on whatever
+    project is asked, long-lived or fresh.  Disarmed, the wrappers only forward."""
+    from supp.project import Project
+    from supp.module import SourceModule
+    from supp.util import cached_property
+    if getattr(Project.get_module, '_vf_wrapped', False):
+        return
+    orig_get = Project.get_module
+
+    def get_module(self, *args, **kwargs):
+        if _fault['lookup'] is not None:
+            name = args[0] if args else kwargs.get('name')
+            if name == _fault['lookup']:
+                _fault['hits'] += 1
+                raise InjectedFault(name)
+        return orig_get(self, *args, **kwargs)
+    get_module._vf_wrapped = True
+    Project.get_module = get_module
+    orig_scope = SourceModule.__dict__['scope'].func
+
+    def scope(self):
+        if _fault['scope'] is not None and self.name == _fault['scope']:
+            _fault['hits'] += 1
+            raise InjectedFault(self.name)
+        return orig_scope(self)
+    SourceModule.scope = cached_property(scope)
+
+
+def armed(op):
+    """(mode, module id) of an armed request op ['req', probe, mode, mid], else (None, None)"""
+    if op is not None and len(op) >= 4:
+        return op[2], op[3]
+    return None, None
+
+
+def ask(project, world, probe, op=None):
+    """['ok', canonical result] | ['exc', exception type name]; op: the request op (an armed one injects its
+    fault for the duration of this request; _fault['hits'] then tells how often the hook fired)"""
+    from supp import assistant, linter
+    install_fault_hooks()
+    mode, fmid = armed(op)
+    _fault['hits'] = 0
+    if mode:
+        _fault[mode] = G.dotted(world.spec, fmid)
+    try:
+        return _ask(project, world, probe)
+    finally:
+        _fault['lookup'] = _fault['scope'] = None
+
+
+def _ask(project, world, probe):
     from supp import assistant, linter
     mid = probe['file']
     src, pos = G.request_source(world.spec, probe, world.text(mid))
@@ -189,7 +254,7 @@ def timeline(spec, hist, upto):
         here = mid in st['present']
         if kind == 'put':
             kind = 'rewrite' if here else 'create'
-        if kind == 'break':
+        if kind in ('break', 'garble'):
             kind = 'rewrite' if here else 'create'
         if kind == 'create' and not here:
             st['present'].add(mid)
@@ -407,8 +472,15 @@ def run_history(spec, hist, part, compare, key, seen_mechs, selfcheck=False):
                         mods_since.append((op[1], kind))
                 continue
             probe = spec['probes'][op[1]]
-            a_long = ask(longp, world, probe)
+            a_long = ask(longp, world, probe, op)
+            mode, fmid = armed(op)
+            hits_long = _fault['hits']
             part.count('requests_issued_on_long_lived_project')
+            if mode:
+                part.count('armed_requests(%s)' % mode)
+                part.count('armed_requests')
+                if a_long == ['exc', 'InjectedFault']:
+                    part.count('armed_requests_raised_on_long_lived_project')
             if failed_reqs and last_mod > failed_reqs[-1] and a_long[0] != 'exc':
                 part.count('requests_answered_after_a_failing_request_and_a_later_modification')
             if pkg_created and spec['modules'][probe['file']]['pkg'] and a_long[0] != 'exc':
@@ -424,8 +496,26 @@ def run_history(spec, hist, part, compare, key, seen_mechs, selfcheck=False):
                 first_req = i
             if compare == 'last' and i != len(hist) - 1:
                 continue
-            a_fresh = ask(Project([root]), world, probe)
+            a_fresh = ask(Project([root]), world, probe, op)
+            if mode:
+                # an injected fault is never a verdict: the step only has to fail identically on both sides
+                part.count('armed_requests_compared')
+                both = a_long == ['exc', 'InjectedFault'] and a_fresh == ['exc', 'InjectedFault']
+                if mode == 'scope':
+                    # raised only where the module is actually analysed: the sides may legitimately differ
+                    part.hist('armed_scope_fault_outcome', 'long:%s fresh:%s' % (a_long[0] if a_long[0] == 'ok' else a_long[1],
+                                                                                   a_fresh[0] if a_fresh[0] == 'ok' else a_fresh[1]))
+                    continue
+                if both and hits_long and _fault['hits']:
+                    part.count('armed_requests_raised_on_both')
+                    part.count('both_raise_same_type')
+                    part.hist('exception_on_both_sides', 'InjectedFault')
+                else:
+                    part.count('armed_requests_not_reached_on_both_sides(inconclusive step, not judged)')
+                continue
             part.count('requests_compared')
+            if any(v == 'syntax' for v in world.broken.values()):
+                part.count('requests_compared_while_a_module_has_a_syntax_error')
             part.hist('request_kind', probe['kind'])
             dist = G.distances(spec, probe['file'])
             ds = sorted({dist[m] for m, _ in mods_since if m in dist})
@@ -437,7 +527,7 @@ def run_history(spec, hist, part, compare, key, seen_mechs, selfcheck=False):
                 if m in dist:
                     part.hist('modification_before_request', '%s@d%d' % (k, dist[m]))
             if selfcheck:
-                a2 = ask(Project([root]), world, probe)
+                a2 = ask(Project([root]), world, probe, op)
                 part.count('fresh_vs_fresh_checks')
                 if a2 != a_fresh:
                     part.count('oracle_unstable_discarded')
@@ -453,7 +543,7 @@ def run_history(spec, hist, part, compare, key, seen_mechs, selfcheck=False):
                 part.count('answers_equal')
                 continue
             # a difference: make sure the oracle itself is stable before blaming the cache
-            a2 = ask(Project([root]), world, probe)
+            a2 = ask(Project([root]), world, probe, op)
             if a2 != a_fresh:
                 part.count('oracle_unstable_discarded')
                 continue
@@ -488,9 +578,9 @@ def differs_at(spec, hist, i):
                 world.apply(op)
                 continue
             probe = spec['probes'][op[1]]
-            a_long = ask(longp, world, probe)
+            a_long = ask(longp, world, probe, op)
             if j == i:
-                a_fresh = ask(Project([root]), world, probe)
+                a_fresh = ask(Project([root]), world, probe, op)
                 return a_long != a_fresh and not (a_long[0] == 'exc' and a_fresh[0] == 'exc')
     finally:
         shutil.rmtree(root, ignore_errors=True)
@@ -615,7 +705,7 @@ def main(run):
                 for s in range(0, total, per):
                     jobs.append(['chain', [variant, length, s, min(per, total - s), run.seed]])
         used = spent
-    nrand = run.pick(2700, 24000)
+    nrand = run.pick(2400, 24000)
     per = run.pick(25, 100)
     for s in range(0, nrand, per):
         jobs.append(['random', [run.seed, s, per, 40]])
@@ -638,7 +728,10 @@ def main(run):
         'fixed_chains': 'S: m star-imports a (+ from a import K_c), a star-imports b, b re-exports K_c,c_s from the package c and star-imports d (absent at start); '
                         'R: m imports a (+ from a import b), a imports b, b re-exports from the package c and imports d (absent at start); in both, '
                         's = c/K_c.py (absent at start) is a sub-module named like the class K_c defined in c/__init__.py; '
-                        'X (error path): m imports a, a imports w, w is on disk with a syntax error (B = save with a syntax error, P = repair); '
+                        'X (error path): m star-imports a and then w, a imports w; R..!w = the request is ARMED: the harness wrapper around '
+                        'Project.get_module raises InjectedFault when w is looked up (after a was validated), on the long-lived and on the '
+                        'fresh project alike; such a step is never judged, the following ones are (B = save w with a syntax error, G = save it '
+                        'as bytes that are not UTF-8, P = repair: ordinary compared steps); '
                         'P (package creation): directory p holds r (requested, relative imports only) and h but no __init__.py at the start (Pp creates it)',
         'alphabets (E=rewrite with new content+mtime, T=touch, P=create-or-rewrite, R=request; lower case in a history = mtime moved backward)': alphabets,
         'levels': enumerated,
@@ -659,7 +752,9 @@ def main(run):
                  'modifications_mtime_forward', 'modifications_mtime_backward',
                  'submodules_created_over_a_package_attribute', 'histories_with_a_failing_request',
                  'histories_with_a_package_creation', 'requests_answered_after_a_failing_request_and_a_later_modification',
-                 'requests_on_a_file_inside_a_package_after_a_package_creation', 'both_raise_same_type'),
+                 'requests_on_a_file_inside_a_package_after_a_package_creation', 'both_raise_same_type',
+                 'armed_requests', 'armed_requests_raised_on_long_lived_project', 'armed_requests_raised_on_both',
+                 'requests_compared_while_a_module_has_a_syntax_error'),
         assumptions=[
             'oracle = Project([root]) created after the last write, asked the same request in the same process; its stability is '
             're-checked on every difference (and on a sample of agreements) by asking a third fresh project',
@@ -668,6 +763,10 @@ def main(run):
             '__init__.py, no second root, import graphs are acyclic, module-level code is straight-line (no MultiName alternatives)',
             'alternatives inside one location entry are compared as sets (their order is an address-order matter of C17); when both '
             'sides raise, nothing is judged (C08)',
+            'failing requests are produced by an injected fault (harness wrapper around Project.get_module / SourceModule.scope '
+            'raising InjectedFault for one designated module while the request is armed); an armed step is never judged (counted as '
+            'raised-on-both or not-reached), the steps after it are compared as usual; modules saved with a syntax error or as '
+            'undecodable bytes are ordinary steps (compared; if both sides raise the same type nothing is judged)',
         ],
         exhaustive=(complete and failures == 0 and full_to == maxlen))
 
